@@ -4,7 +4,7 @@
    produced by encoders do not.  These facts are sampled by the correspondence run. *)
 From Coq Require Import String List NArith.
 From Http Require Import Model.Bytes Model.Headers Model.Coding Model.Inflate Spec.DeflateStored
-     Proofs.Rewrite Proofs.CodingGlue Proofs.InflateC15 Proofs.InflateStored Proofs.HuffmanCanon Proofs.HuffmanFixed Proofs.CopyMatch Proofs.HuffmanFixedLZ.
+     Proofs.Rewrite Proofs.CodingGlue Proofs.InflateC15 Proofs.InflateStored Proofs.HuffmanCanon Proofs.HuffmanFixed Proofs.CopyMatch Proofs.HuffmanFixedLZ Proofs.HuffmanKraft Proofs.HuffmanGen Proofs.HuffmanDyn.
 Import ListNotations.
 
 Theorem C13_decode_inverts_every_stack :
@@ -143,3 +143,30 @@ Proof.
   - eexists. split; [|vm_compute; reflexivity]. simpl. repeat constructor.
   - vm_compute. reflexivity.
 Qed.
+
+(* every table the decoder accepts (not over-subscribed) decodes the canonical code of each of its symbols:
+   the Kraft bound gives "the code fits its length" *)
+Theorem C13_accepted_table_decodes :
+  forall (b : bool) (lens : list N) (sym L : nat) (s : istate) (t : list bool),
+    table_ok b (mk_table lens) = true -> 1 <= L -> L <= 15 ->
+    nth_error lens sym = Some (N.of_nat L) ->
+    bits_of s = code_bits lens sym L ++ t ->
+    exists s', dec_sym (mk_table lens) s = Ok sym s' /\ bits_of s' = t.
+Proof. exact dec_sym_accepted_table. Qed.
+Print Assumptions C13_accepted_table_decodes.
+
+(* a final block with a DYNAMIC header, for any header an encoder may write (any HLIT / HDIST / HCLEN, any
+   code-length code, any run-length coding of the lengths with the symbols 16, 17, 18), any pair of tables
+   the decoder accepts, any literals and matches coded with them: specified by its bits, it decodes to RFC
+   1951's copy semantics of its symbols.  This is what zlib emits at levels 1-9 for a body of one block. *)
+Theorem C13_dynamic_block_inverted :
+  forall (e : bytes) (h : dyn_header) (lens : list N) (xs : list fsym) (pad : list bool),
+    header_ok h lens ->
+    let litlens := firstn (d_hlit h) lens in
+    let distlens := skipn (d_hlit h) lens in
+    Forall (gsym_ok litlens distlens) xs -> has_code litlens 256 ->
+    flat_map byte_bits e = [true; false; true] ++ header_bits h ++ gblock_bits litlens distlens xs ++ pad ->
+    length pad < 8 ->
+    inflate_raw_model e = Some (rev (fold_left fsym_apply xs [])).
+Proof. exact dynamic_block_inverts. Qed.
+Print Assumptions C13_dynamic_block_inverted.
